@@ -102,6 +102,83 @@ def _constructs(t, variant):
     return False
 
 
+def check_precision_change_keeps_compressed_side(ctx, F):
+    """A change of precision re-labels the coder: it may move words between the remainders head and the remainders backend,
+    but the compressed backend and the compressed head - the bits of chunks that were fetched and not yet handed to a model -
+    go over into the new coder as they are.  Otherwise the chunks after the change are cut from other bits than the data's
+    (the parked bits of a partially consumed word belong to the next chunks)."""
+    import re
+    n = 0
+    for b in F.bodies:
+        if b.promoted is not None or '::tests' in b.defpath or b.self_adt != CHAIN or b.dk != 'AssocFn' or not (b.file or '').endswith('stream/chain.rs'):
+            continue
+        sig = b.raw.get('sig') or ''
+        m = re.match(r'(?:unsafe )?fn\(stream::chain::ChainCoder<([^()]*?)>\) -> core::result::Result<stream::chain::ChainCoder<(.*?)>, ', sig)
+        if not m or m.group(1) == m.group(2):
+            continue
+        try:
+            _, paths = rules.evaluate(b)
+        except sym.TooManyPaths:
+            paths = None
+        key = 'R3/precision-change-keeps-compressed-side/' + b.defpath
+        role = 'a precision change hands the compressed backend and the compressed head over unchanged'
+        if paths is None:
+            ctx.unresolved('R3', role, b.defpath, 'too many paths', key=key)
+            continue
+        built = 0
+        bad = None
+        unres = None
+        for r in paths:
+            if r.end != 'return' or r.ret is None or not (r.ret[0] == 'agg' and r.ret[1][0] == 'adt' and r.ret[1][2] == 'Ok'):
+                continue
+            c = r.ret[2][0]
+            if not (isinstance(c, tuple) and c and c[0] == 'agg' and c[1][0] == 'adt' and c[1][1] == CHAIN and len(c) > 3 and c[3]):
+                continue          # a forwarder: the callee is judged where it builds the coder
+            built += 1
+            fields = dict(zip(c[3], c[2]))
+            heads = fields.get('heads')
+            hc = None
+            if isinstance(heads, tuple) and heads and heads[0] == 'agg' and len(heads) > 3 and heads[3]:
+                hc = dict(zip(heads[3], heads[2])).get('compressed')
+            elif isinstance(heads, tuple) and heads:
+                hc = ('proj', heads, ('f', 'compressed'))
+            frames = {e['uid']: callee_frame(F, e['callee']) for e in r.events if e['kind'] == 'call' and e.get('uid') is not None}
+
+            def carried(v, path):
+                """v is the old value of self.<path>, possibly read after a helper that does not write it"""
+                if v == ('in', (1,) + path) or v == ('in', (1, 'deref') + path):
+                    return True
+                x, rest = v, ()
+                while isinstance(x, tuple) and x and x[0] == 'proj' and isinstance(x[2], tuple) and x[2][0] == 'f':
+                    x, rest = x[1], (x[2],) + rest
+                if isinstance(x, tuple) and x and x[0] == 'post' and rest == path:
+                    fr = frames.get(x[1])
+                    if fr is None:
+                        return None
+                    return not any(w[:len(path)] == path[:len(w)] or w[:len(path)] == path for w in fr)
+                return False
+            for what, v, path in (('the compressed backend', fields.get('compressed'), (('f', 'compressed'),)), ('the compressed head', hc, (('f', 'heads'), ('f', 'compressed')))):
+                if v is None:
+                    unres = unres or ('%s of the new coder was not found in the literal' % what)
+                    continue
+                ok = carried(v, path)
+                if ok is None:
+                    unres = unres or ('%s is read after a helper whose frame is unknown' % what)
+                elif not ok:
+                    bad = bad or ('%s of the new coder is `%s`, not the old one: bits that were fetched from the data and not yet consumed are replaced, so the chunks decoded after the change are not the chunks of the data' % (what, sym.show(v)[:100]))
+        if not built:
+            continue
+        n += 1
+        ctx.touch(b)
+        if bad:
+            ctx.bad('R3', role, b.defpath, bad, key=key, loc=rules.loc(b))
+        elif unres:
+            ctx.unresolved('R3', role, b.defpath, unres, key=key)
+        else:
+            ctx.ok('R3', role, b.defpath, '%d exit(s) build the new coder; `compressed` and `heads.compressed` are the old values (helpers in between write the remainders side only)' % built, key=key)
+    ctx.floor('R3', 'floor: functions that build a chain coder of another precision', CHAIN, n, 2, 'only %d found (increase / decrease on the reference tree)' % n, key='R3/floor/precision-change')
+
+
 def run(ctx):
     F = ctx.F
     dec = [b for b in F.bodies if b.promoted is None and b.name == 'decode_symbol' and b.self_adt == CHAIN and b.impl_trait == 'stream::Decode']
@@ -272,6 +349,7 @@ def run(ctx):
             ctx.bad('R3', rq, me[0].defpath, 'the answer is computed from heads.remainders (%s): that head is the product of the probabilities of the models used so far, so whether the decoder reports that it may be exhausted now depends on the models, not on the compressed data alone' % sym.show(hit)[:100], key=kq, loc=rules.loc(me[0]))
         else:
             ctx.ok('R3', rq, me[0].defpath, 'the answer is a function of the backends (and at most the compressed head)', key=kq)
+    check_precision_change_keeps_compressed_side(ctx, F)
     return meta()
 
 
